@@ -90,9 +90,10 @@ def run(ctx):
     # wiring: the host-bit values given to FileAnonymizer / main reach the right family (text level)
     import ipaddress
     from . import textgen, linegen
-    wl = ["a 203.0.113.77 2001:db8:85a3:7:8:8a2e:370:7334 b\n", "c 10.20.30.40 fe80::1234:5678 198.51.100.200 ::ffff\n"]
+    wl = ["a 203.0.113.77 2001:db8:85a3:7:8:8a2e:370:7334 b\n", "c 10.20.30.40 fe80::1234:5678 198.51.100.200 ::ffff\n",
+          "slaac 2001:db8:0:1:211:22ff:fe33:4455 fe80::a8bb:ccff:fedd:eeff 2001:db8::ff:fe00:1 64:ff9b::10.0.0.1\n"]       # incl. EUI-64 interface identifiers
     wcases = []
-    for b4, b6 in [(8, 16), (16, 8), (0, 64), (24, 0), (8, 8), (1, 127)]:
+    for b4, b6 in [(8, 16), (16, 8), (0, 64), (24, 0), (8, 8), (1, 127), (8, 1), (8, 4), (8, 12), (8, 24), (8, 32)]:
         wcases.append(textgen.pipe(wl, flags="a", salt=rng.choice(ipgen.SALTS), b4=b4, b6=b6))
     def wproject(c, o):
         """per address token of each line: are the trailing host bits (b4 for IPv4, b6 for IPv6) of input and output equal"""
@@ -117,7 +118,59 @@ def run(ctx):
             for (a1, e1, v1, _k1), (a2, e2, v2, _k2) in zip(linegen.v6_tokens(l), linegen.v6_tokens(o)):
                 if b6 and (v1 & ((1 << b6) - 1)) != (v2 & ((1 << b6) - 1)):
                     ctx.fail("IPv6 address %s -> %s: the trailing %d host bits given for IPv6 are not kept" % (l[a1:e1], o[a2:e2], b6), {"line": l, "b4": b4, "b6": b6}, o, label="impl-wiring")
-    ctx.evaluations = len(cases) + len(wcases)
+    n_cli = prefix_lists_as_users_write_them(ctx, rng, q)
+    ctx.evaluations = len(cases) + len(wcases) + n_cli
     ctx.distinct_nontrivial = nt
     ctx.search_stats = {"cases": len(cases), "inside_addresses_moved": nt}
     ctx.samples = [{"case": cases[0], "impl": i[0]}, {"case": cases[-1], "impl": i[-1]}]
+
+
+def prefix_lists_as_users_write_them(ctx, rng, q):
+    """preserved-prefix lists in every notation ipaddress accepts (prefix length, netmask, hostmask, bare host) and with nested / adjacent entries,
+    through FileAnonymizer (api) and the real command line: an address inside a listed prefix stays inside it, one outside stays outside, host bits kept"""
+    import base64
+    import ipaddress
+    import json
+    import vlib
+    lists = [["10.0.0.0/255.0.0.0"], ["172.16.0.0/0.15.255.255"], ["198.51.100.7"], ["10.0.0.0/8", "10.20.0.0/16"], ["172.16.0.0/13", "172.24.0.0/13"],
+             ["192.168.0.0/17", "192.168.128.0/17", "11.0.0.0/8"], ["10.0.0.0/8", "10.0.0.0/9", "10.128.0.0/9"]]
+    n = 0
+    runs, metas = [], []
+    for pl in lists:
+        nets = [ipaddress.ip_network(x) for x in pl]
+        for salt in (["s", "T5"] if q else ["s", "T5", "", "x1", "x2", "zz"]):
+            addrs = []
+            for net in nets:
+                for _ in range(4):
+                    addrs.append(str(net[rng.randrange(net.num_addresses)]))
+                base = int(net.network_address)
+                for k in range(1, min(net.prefixlen, 12) + 1):      # siblings at every level above the prefix: outside it
+                    addrs.append(str(ipaddress.IPv4Address((base ^ (1 << (32 - k))) | rng.getrandbits(32 - net.prefixlen if net.prefixlen < 32 else 1) & ((1 << (32 - net.prefixlen)) - 1))))
+            addrs = [a for a in addrs if int(ipaddress.IPv4Address(a)) >> 28 < 14]
+            text = "".join("host %s\n" % a for a in addrs)
+            for mode in ("api", "main"):
+                opts = {"ip": True, "salt": salt, "prefixes": pl, "b4": 8, "b6": 8, "hostbits": 8, "single": "r.cfg"}
+                runs.append(["files", mode, json.dumps(opts), json.dumps([["r.cfg", base64.b64encode(text.encode()).decode(), {}]])])
+                metas.append((pl, nets, salt, mode, addrs))
+    from . import ipref
+    for c, out, (pl, nets, salt, mode, addrs) in zip(runs, vlib.run_impl(runs), metas):
+        try:
+            r = json.loads(out)
+            got = [l.split()[1] for l in r["out"]["r.cfg"].splitlines()]
+            assert len(got) == len(addrs) and not r["raised"]
+        except Exception:
+            ctx.fail("run with the preserved-prefix list %s produced no output (%s)" % (pl, mode), {"prefixes": pl, "salt": salt}, out[:300], label="impl-prefix-lists")
+            continue
+        for a, b in zip(addrs, got):
+            n += 1
+            ia, ib = ipaddress.IPv4Address(a), ipaddress.IPv4Address(b)
+            if ipref.is_mask_ref(int(ia)):
+                continue
+            if (int(ia) & 255) != (int(ib) & 255):
+                ctx.fail("host bits of %s not kept: %s" % (a, b), {"prefixes": pl, "salt": salt, "entry_point": mode}, b, label="impl-prefix-lists")
+            for net in nets:
+                if (ia in net) != (ib in net):
+                    ctx.fail("%s (%s %s) is mapped to %s (%s it); preserved prefixes as given: %s" % (a, "inside" if ia in net else "outside", net, b, "inside" if ib in net else "outside", pl),
+                             {"prefixes": pl, "salt": salt, "entry_point": mode}, b, label="impl-prefix-lists")
+                    break
+    return n
